@@ -49,6 +49,16 @@ pub fn exec(op: &str, a: &Value) -> Option<Value> {
             let s = format!("{}-{:02}-{:02}T{:02}:{:02}:{:02}.{:03}{:03}{:03}{}[{}]", year, f.1, f.2, f.3, f.4, f.5, f.6, f.7, f.8, off, tz);
             ZonedDateTime::from_str_with_provider(&s, dis(a), offopt(a), &p)
         }, |x| rel_of(x.epoch_nanoseconds().as_i128())),
+        // the same through a property bag: date and time fields, the zone, and (offk = "offset") an offset of whole minutes
+        "Zoned.fromPartial" => run(|| {
+            let f = fields_of(js::i(a, "w"), SUB_NS);
+            let date = temporal_rs::partial::PartialDate::new().with_year(Some(f.0)).with_month(Some(f.1)).with_day(Some(f.2));
+            let time = temporal_rs::partial::PartialTime::new().with_hour(Some(f.3)).with_minute(Some(f.4)).with_second(Some(f.5))
+                .with_millisecond(Some(f.6)).with_microsecond(Some(f.7)).with_nanosecond(Some(f.8));
+            let mut pz = temporal_rs::partial::PartialZonedDateTime::new().with_date(date).with_time(time).with_timezone(Some(time_zone_for(&z, false)));
+            if js::s(a, "offk") == "offset" { pz = pz.with_offset(Some(UtcOffset::from_str(&offset_string(js::i(a, "offmin") * 60))?)); }
+            ZonedDateTime::from_partial_with_provider(pz, None, Some(dis(a)), Some(offopt(a)), &p)
+        }, |x| rel_of(x.epoch_nanoseconds().as_i128())),
         "Zoned.startOfDay" => run(|| zdt(&z, js::i(a, "t"))?.start_of_day_with_provider(&p), |x| rel_of_plain(x.epoch_nanoseconds().as_i128())),
         "Zoned.withPlainTime" => run(|| { let sod = js::i(a, "sod");
             let time = PlainTime::try_new((sod / 3600) as u8, (sod / 60 % 60) as u8, (sod % 60) as u8, (SUB_NS / 1_000_000) as u16, (SUB_NS / 1000 % 1000) as u16, (SUB_NS % 1000) as u16)?;
